@@ -28,7 +28,7 @@ RUNS = {"quick": 2400, "thorough": 60000}
 BUDGET = {"quick": 75, "thorough": 1500}
 CHUNK = {"quick": 20, "thorough": 100}
 MOVES = ["add_emitter_one_qubit_op", "add_emitter_cnot", "replace_photon_one_qubit_op", "add_photon_one_qubit_op",
-         "remove_op", "remove_op_node", "add_measurement_cnot_and_reset"]
+         "remove_op", "remove_op_node", "add_measurement_cnot_and_reset", "select"]
 RULE = (
     "initial circuit from EvolutionarySolver.initialization (seam-chosen emission/measurement assignment, 1-3 emitters, "
     "1-5 photons), from TimeReversedSolver on a seeded target (n<=6), or an entry of an AlternateTargetSolver result; "
@@ -39,7 +39,7 @@ RULE = (
 )
 PROBES = ["two_qubit_inserted", "removal_happened", "fixed_removal_refused", "no_position_for_two_qubit",
           "init_from_time_reversed", "init_from_initialization", "init_from_alternate", "measurement_inserted",
-          "fallback_replace_used"]
+          "fallback_replace_used", "selection_done", "alternate_source_with_noise_model"]
 REAL = ["graphiq.solvers.evolutionary_solver.EvolutionarySolver (all mutation moves, initialization, assignments)",
         "graphiq.solvers.hybrid_solvers.HybridEvolutionarySolver (same moves)",
         "graphiq.solvers.time_reversed_solver.TimeReversedSolver", "graphiq.circuit.circuit_dag.CircuitDAG"]
@@ -68,6 +68,8 @@ def gen_case(run_seed, tier):
             w[m] = 0.0
     if sum(w.values()) == 0:
         w["add_emitter_one_qubit_op"] = 1.0
+    w["select"] = 0.35 if w["select"] else 0.0  # tournament selection between moves (population of copies)
+    case["alt_noise"] = src == "alt" and sz.random() < 0.4
     hist = []
     for _ in range(length):
         m = wl.choices(MOVES, weights=[w[x] for x in MOVES])[0]
@@ -185,7 +187,10 @@ def make_initial(ctx, case, rng_lib):
         ctx.probe("init_from_time_reversed")
     else:
         from graphiq.solvers.alternate_target_solver import AlternateTargetSolver
-        alt = AlternateTargetSolver(target=tg, metric=Infidelity(tg), compiler=comp, seed=case["lseed"] % 1000)
+        alt = AlternateTargetSolver(target=tg, metric=Infidelity(tg), compiler=comp, seed=case["lseed"] % 1000,
+                                    noise_model_mapping="depolarizing" if case.get("alt_noise") else None)
+        if case.get("alt_noise"):
+            ctx.probe("alternate_source_with_noise_model")
         alt.solver_setting.n_iso_graphs = 2
         alt.solver_setting.n_lc_graphs = 2
         alt.solver_setting.lc_method = "lc_with_iso"
@@ -236,8 +241,24 @@ def run_case(case):
         fixed0 = fixed_nodes(circ)
         ctx.log("initial", case["src"], circ.n_emitters, circ.n_photons, len(circ.dag.nodes), sorted(map(str, fixed0)))
         did = {"ins2": 0, "rm": 0}
+        pop = [circ]
         for step, (mv, arg) in enumerate(case["history"]):
             ctx.steps += 1
+            if mv == "select":
+                # tournament selection as the solvers do it between generations: the population becomes copies of
+                # winners (the same individual may win several slots); later moves act on one member each
+                try:
+                    solver.setting.n_pop = 2 + arg % 2
+                    pop = [c for (_, c) in solver.tournament_selection([(float(i), c) for i, c in enumerate(pop)], k=1 + arg % 3)]
+                except core.HarnessError:
+                    raise
+                except Exception as e:
+                    ctx.violate("unexpected_exception", step, f"tournament_selection: {type(e).__name__}: {e}", {"move": mv, "exc": type(e).__name__})
+                    break
+                ctx.probe("selection_done")
+                ctx.log(step, mv, arg, len(pop))
+                continue
+            circ = pop[arg % len(pop)]
             n_before = circ.dag.number_of_nodes()
             two_before = sum(1 for n in circ.dag.nodes if isinstance(circ.dag.nodes[n]["op"], (ops.ControlledPairOperationBase, ops.ClassicalControlledPairOperationBase)))
             nd0 = len(rng.draws)
@@ -273,14 +294,21 @@ def run_case(case):
             if mv in ("add_emitter_one_qubit_op", "add_photon_one_qubit_op") and n_after == n_before:
                 ctx.probe("fallback_replace_used")
             ctx.log(step, mv, arg, n_after, [d[2] if not isinstance(d[2], list) else d[2][-1] for d in rng.draws[nd0:]])
-            bad = photon_structure(circ)
-            if bad:
-                ctx.violate(bad[0], step, f"after {mv}: {bad[1]}", {"move": mv})
+            stop = False
+            for member in pop:  # every member of the population, not only the one that was moved (aliasing between copies)
+                bad = photon_structure(member)
+                if bad:
+                    ctx.violate(bad[0], step, f"after {mv}: {bad[1]}", {"move": mv})
+                    stop = True
+                    break
+                now = fixed_nodes(member)
+                lost = [(n, s) for n, s in fixed0.items() if now.get(n) != s]
+                if lost:
+                    ctx.violate("I5_fixed_operation_lost", step, f"after {mv}: emission / measure-and-reset operations of the initial circuit changed or vanished: {lost[:3]}", {"move": mv})
+                    stop = True
+                    break
+            if stop:
                 break
-            now = fixed_nodes(circ)
-            lost = [(n, s) for n, s in fixed0.items() if now.get(n) != s]
-            if lost:
-                ctx.violate("I5_fixed_operation_lost", step, f"after {mv}: emission / measure-and-reset operations of the initial circuit changed or vanished: {lost[:3]}", {"move": mv})
-                break
+        circ = pop[0]
         nontrivial = circ.n_emitters >= 2 and did["ins2"] >= 1 and did["rm"] >= 1
     return ctx.result(nontrivial, sample={k: case[k] for k in case if k != "history"} | {"history": case["history"][:10]})
